@@ -857,45 +857,70 @@ def rule_direction(model):
 
 
 class _NKS(BaseState):
-    def __init__(self, may=frozenset()):
+    def __init__(self, may=frozenset(), looked=frozenset()):
         self.may = may            # locals that may hold None
+        self.looked = looked      # locals that hold(held) a looked-up value
 
     def key(self):
-        return self.may
+        return (self.may, self.looked)
 
     def copy(self):
-        n = _NKS(self.may)
+        n = _NKS(self.may, self.looked)
         n.trace = self.trace
         return n
 
 
 class _NoneKeyDomain(Domain):
-    """Which extracted sort keys may still be None where they are handed
-    on (appended to the decorated list / returned by the extractor)?"""
+    """Which extracted sort keys may still be None where they reach the
+    decorated list?  Helpers are summarised by "may return None"."""
 
-    def __init__(self, is_helper):
-        self.is_helper = is_helper
+    def __init__(self, model, fi, may_none):
+        self.model, self.fi = model, fi
+        self.may_none = may_none          # where -> bool (helper summary)
         self.sinks = {}
+        self.ret_none = False
+        self.saw_source = False
+
+    def _helper(self, call):
+        for t in self.model.resolve_callee(call.func, self.fi):
+            if t[0] == 'func' and t[1].where in self.may_none:
+                return t[1].where
+        # nested function of the enclosing function
+        if isinstance(call.func, ast.Name):
+            for w in self.may_none:
+                if w.endswith('.' + call.func.id) or \
+                        w.endswith(':' + call.func.id):
+                    return w
+        return None
 
     def source(self, e, st):
-        # lookup that answers None for a missing field, or the result of
-        # calling the looked-up value
+        # lookup that answers None for a missing field, the result of
+        # calling the looked-up value, or a helper that may return None
         if isinstance(e, ast.Call):
             f = e.func
+            h = self._helper(e)
+            if h is not None:
+                return self.may_none[h]
             if isinstance(f, ast.Attribute) and f.attr == 'get' and \
                     len(e.args) == 1:
+                self.saw_source = True
                 return True
             if isinstance(f, ast.Name) and f.id == 'getattr' and \
                     len(e.args) == 3 and isinstance(
                         e.args[2], ast.Constant) and e.args[2].value is None:
+                self.saw_source = True
                 return True
             if isinstance(f, ast.Name) and not e.args and not e.keywords \
-                    and f.id not in ('list', 'dict', 'tuple', 'set'):
-                return True        # akey()
+                    and (f.id in st.may or f.id in st.looked):
+                return True        # akey(): the looked-up value called
         if isinstance(e, ast.Name):
             return e.id in st.may
         if isinstance(e, ast.IfExp):
             return self.source(e.body, st) or self.source(e.orelse, st)
+        if isinstance(e, (ast.ListComp, ast.GeneratorExp)):
+            return self.source(e.elt, st)
+        if isinstance(e, (ast.List, ast.Tuple)):
+            return any(self.source(x, st) for x in e.elts)
         return False
 
     def raises(self, node, st):
@@ -932,8 +957,9 @@ class _NoneKeyDomain(Domain):
                 isinstance(stmt.targets[0], ast.Name):
             t = stmt.targets[0].id
             n = st.copy()
-            n.may = (st.may | {t}) if self.source(stmt.value, st) \
-                else (st.may - {t})
+            src = self.source(stmt.value, st)
+            n.may = (st.may | {t}) if src else (st.may - {t})
+            n.looked = (st.looked | {t}) if src else st.looked
             return n
         return st
 
@@ -941,45 +967,66 @@ class _NoneKeyDomain(Domain):
         return st
 
     def on_return(self, node, st):
-        if self.is_helper and node.value is not None:
-            self._sink(node, node.value, st)
+        if node.value is not None and self.source(node.value, st):
+            self.ret_none = True
         return [], st
 
 
 def rule_none_keys(model):
-    r = RuleResult('C13.R9', 'no extracted sort key is handed on while it '
-                   'may still be None: a missing field AND the None a '
-                   'callable field returns are both replaced by the '
-                   'smallest-key marker before the key reaches the '
-                   'decorated list (None does not compare with real keys)')
+    r = RuleResult('C13.R9', 'no extracted sort key reaches the decorated '
+                   'list while it may still be None: a missing field AND '
+                   'the None a callable field returns are both replaced by '
+                   'the smallest-key marker first (None does not compare '
+                   'with real keys); helpers are summarised by whether '
+                   'they may return None')
     ss = model.func('DT_In', 'InClass.sort_sequence')
+    clo = list(model.closure(ss))
+    for h in ss.module.funcs.values():
+        p_ = h.parent
+        while p_ is not None:
+            if p_ in clo and h not in clo:
+                clo.append(h)
+            p_ = p_.parent
+    may_none = {f.where: False for f in clo if f is not ss}
+    doms = {}
+    saw = False
+    for _ in range(3):
+        changed = False
+        for f in clo:
+            dom = _NoneKeyDomain(model, f, may_none)
+            it = Interp(dom, max_states=80000)
+            it.run(f.node, _NKS())
+            if it.overflow:
+                raise AnalysisError(f'C13.R9: state budget in {f.where}')
+            doms[f.where] = (f, dom)
+            saw = saw or dom.saw_source
+            if f is not ss and dom.ret_none and not may_none[f.where]:
+                may_none[f.where] = True
+                changed = True
+        if not changed:
+            break
     n = 0
-    for f in model.closure(ss):
-        has_src = any(
-            isinstance(x, ast.Call) and _NoneKeyDomain(False).source(
-                x, _NKS()) and not (isinstance(x.func, ast.Name) and
-                                   not x.args)
-            for x in own_nodes(f.node))
-        if not has_src:
-            continue
-        dom = _NoneKeyDomain(f is not ss)
-        it = Interp(dom, max_states=80000)
-        it.run(f.node, _NKS())
-        if it.overflow:
-            raise AnalysisError(f'C13.R9: state budget in {f.where}')
+    for f, dom in doms.values():
         for node, bad in dom.sinks.values():
             n += 1
             r.instance(f.where, node, 'MAY BE None' if bad else 'never None')
             if bad:
-                r.finding(f.where, node, 'a sort key that may be None is '
-                          'handed on (the field is missing, or a callable '
-                          'field returned None after the None test): '
-                          'sorting then compares None with real keys and '
-                          'raises TypeError instead of putting the element '
-                          'first', node=node, ctx=f)
-    if n < 2:
-        raise AnalysisError(f'C13.R9: only {n} key hand-over sites found')
-    r.floor = 2
+                r.finding(f.where, node, 'a sort key that may be None '
+                          'reaches the decorated list (the field is '
+                          'missing, or a callable field returned None '
+                          'after the None test): sorting then compares '
+                          'None with real keys and raises TypeError '
+                          'instead of putting the element first',
+                          node=node, ctx=f)
+    for w, v in sorted(may_none.items()):
+        if w in doms and doms[w][1].saw_source or v:
+            r.instance(w, 'helper summary', 'may return None' if v
+                       else 'never returns None')
+    if not saw or n < 1:
+        raise AnalysisError('C13.R9: the key lookup / the decorated list '
+                            f'were not found (lookup seen: {saw}, '
+                            f'hand-over sites: {n})')
+    r.floor = 1
     return r
 
 
